@@ -1515,6 +1515,101 @@ func (p *Prog) specsToks(fn *ssa.Function, slice ssa.Value, at ssa.Instruction, 
 				}
 			}
 		}
+		if len(out) == 1 {
+			return out, true
+		}
+		// D is a parameter: each caller knows the token of the declaration it passes (a constant and a variable
+		// handler merged into one: called under CONST here and under VAR there)
+		if fa, isFA := slice.(*ssa.UnOp); isFA && len(out) == 0 {
+			if fad, ok := fa.X.(*ssa.FieldAddr); ok {
+				if dp, ok := fad.X.(*ssa.Parameter); ok {
+					idx := -1
+					for i, q := range fn.Params {
+						if q == dp {
+							idx = i
+						}
+					}
+					n, good := 0, idx >= 0
+					for _, g := range p.srcFuncs {
+						rmG := map[*ssa.BasicBlock]relSet(nil)
+						p.instrs(g, func(b *ssa.BasicBlock, i int, in ssa.Instruction) {
+							c, ok := in.(ssa.CallInstruction)
+							if !ok || c.Common().StaticCallee() != fn || idx >= len(c.Common().Args) {
+								return
+							}
+							n++
+							if rmG == nil {
+								rmG = p.Rels(g)
+							}
+							tk := sk(c.Common().Args[idx]) + ".Tok"
+							rsG := p.RelsAt(rmG, in)
+							for f := range p.entryRels(g) {
+								rsG[f] = true
+							}
+							found := 0
+							for f := range rsG {
+								i := topLevelIndex(f, " == ")
+								if i < 0 {
+									continue
+								}
+								a, b := f[:i], f[i+4:]
+								var v int64
+								if b == tk {
+									if _, err := fmt.Sscan(a, &v); err == nil && fmt.Sprint(v) == a {
+										out[v] = true
+										found++
+									}
+								}
+								if a == tk {
+									if _, err := fmt.Sscan(b, &v); err == nil && fmt.Sprint(v) == b {
+										out[v] = true
+										found++
+									}
+								}
+							}
+							if found == 0 {
+								// `case A, B:` — the block is entered from two tests; each edge knows its token
+								blk := in.Block()
+								okEdges := len(blk.Preds) > 1
+								for _, pr := range blk.Preds {
+									ne := 0
+									for f := range p.RelsOnEdge(rmG, pr, blk) {
+										i := topLevelIndex(f, " == ")
+										if i < 0 {
+											continue
+										}
+										a, b := f[:i], f[i+4:]
+										var v int64
+										if b == tk {
+											if _, err := fmt.Sscan(a, &v); err == nil && fmt.Sprint(v) == a {
+												out[v] = true
+												ne++
+											}
+										}
+										if a == tk {
+											if _, err := fmt.Sscan(b, &v); err == nil && fmt.Sprint(v) == b {
+												out[v] = true
+												ne++
+											}
+										}
+									}
+									if ne != 1 {
+										okEdges = false
+									}
+								}
+								if okEdges {
+									found = 1
+								}
+							}
+							if found != 1 {
+								good = false
+							}
+						})
+					}
+					return out, good && n > 0 && len(out) > 0
+				}
+			}
+		}
 		return out, len(out) == 1
 	}
 	pa, ok := slice.(*ssa.Parameter)
